@@ -34,7 +34,7 @@ use crate::pushio::*;
 use crate::*;
 
 pub const PROP: Prop = Prop { name: "C16", gen, run };
-pub const NOPS: usize = 47;
+pub const NOPS: usize = 48;
 
 struct Alpha(Vec<i64>);
 impl Distribution<i64> for Alpha {
@@ -62,7 +62,10 @@ fn triple<O: Sync>(seed: u64, mk: impl Fn() -> O + Sync, call: impl Fn(&O, &mut 
         Ok(pool) => pool.install(|| run(&used, Sm::new(seed))),
         Err(_) => run(&used, Sm::new(seed)),
     };
-    tl![ra, rb, rc]
+    // run D: the used value once more, on the calling thread - the thread on which run A, the warm-up and many earlier
+    // cases of this process have already run (scratch space kept per thread must not carry anything over)
+    let rd = run(&used, Sm::new(seed));
+    tl![ra, rb, rc, rd]
 }
 /// like `triple`, but the three runs use ARGUMENTS that are equal as values and differ in their allocation
 /// (exact capacity / spare capacity): the outcome is a function of the values
@@ -220,6 +223,17 @@ fn run_op(op: usize, seed: u64, data: &[i64]) -> Option<Tree> {
                     }
                 },
             )
+        }
+        // lexicase with 100 cases on a population in which the case order decides
+        47 => {
+            use ec_core::operator::selector::lexicase::Lexicase;
+            let wide: Pop<Score<i64>> = (0..7usize)
+                .map(|i| EcIndividual::new(i as u32, TestResults::<Score<i64>>::from((0..100usize).map(|c| ((i * 7 + c * (i + 3) + c / 3) % 4) as i64).collect::<Vec<i64>>())))
+                .collect();
+            triple(seed, || Lexicase::new(100), |s, rng| match s.select(&wide, rng) {
+                Ok(r) => tl![A(0), wide.iter().position(|q| std::ptr::eq(q, r)).map_or(A(-100), au)],
+                Err(_) => tl![A(1)],
+            })
         }
         // a population of 10 000 individuals in three tie classes (a blocked or parallel scan would kick in here)
         44 | 45 | 46 => {
@@ -444,6 +458,39 @@ fn run_push(l: &[Tree]) -> Option<Tree> {
                 None => first = Some(o),
                 Some(f) => all_equal &= *f == o,
             }
+        }
+    }
+    // the same with the PROGRAM built on another thread than the one that declares the inputs (names are values: where
+    // a name was created must not matter)
+    {
+        let stv = st.to_vec();
+        let worker_state = std::thread::scope(|sc| sc.spawn(|| mk_state(&L(stv.clone()), &strings)).join()).ok()??;
+        let mut progs = vec![];
+        {
+            use push::push_vm::HasStack;
+            let mut ex = worker_state.stack::<push::push_vm::program::PushProgram>().clone();
+            while let Ok(p) = ex.pop() {
+                progs.push(p);
+            }
+        }
+        let mut state = mk_state(&L(st.to_vec()), &strings)?;
+        {
+            use push::push_vm::HasStack;
+            let ex = state.stack_mut::<push::push_vm::program::PushProgram>();
+            let n = ex.size();
+            ex.discard(n).ok()?;
+            ex.push_many(progs).ok()?;
+        }
+        let o = match state.run_to_completion() {
+            Ok(s) => tl![A(0), state_tree(&s, &strings), A(0)],
+            Err(e) => {
+                let d = format!("{e:?}");
+                let k = fatal_kind(&d, 3);
+                tl![A(2), state_tree(&e.into_state(), &strings), A(k)]
+            }
+        };
+        if let Some(f) = &first {
+            all_equal &= *f == o;
         }
     }
     let f = first?;
